@@ -93,6 +93,12 @@ def entry_points(case, unit="rad"):
         yield "SE3.R" + ax, lambda: getattr(SE3, "R" + ax)(th, **u)
         yield "UnitQuaternion.R" + ax, lambda: getattr(UnitQuaternion, "R" + ax)(th, **u)
         yield "Twist3.R" + ax, lambda: getattr(Twist3, "R" + ax)(th, **u)
+        # vectorised forms: element 1 of the sequence built from [other angle, th]
+        o_ = 20.0 if unit == "deg" else 0.35
+        yield "SO3.R%s(vector)[1]" % ax, lambda: getattr(SO3, "R" + ax)([o_, th], **u)[1]
+        yield "SE3.R%s(vector)[1]" % ax, lambda: getattr(SE3, "R" + ax)(np.array([o_, th]), **u)[1]
+        yield "UnitQuaternion.R%s(vector)[1]" % ax, lambda: getattr(UnitQuaternion, "R" + ax)([o_, th], **u)[1]
+        yield "Twist3.R%s(vector)[1]" % ax, lambda: getattr(Twist3, "R" + ax)([o_, th], **u)[1]
         if ax == "z":
             yield "base.rot2", lambda: base.rot2(th, **u)
             yield "base.trot2", lambda: base.trot2(th, **u)
@@ -107,6 +113,10 @@ def entry_points(case, unit="rad"):
         yield "SO3.RPY(packed)", lambda: SO3.RPY([r, pt, y], **u, **o)
         yield "SE3.RPY", lambda: SE3.RPY([r, pt, y], **u, **o)
         yield "UnitQuaternion.RPY", lambda: UnitQuaternion.RPY([r, pt, y], **u, **o)
+        other = [10.0, -20.0, 30.0] if unit == "deg" else [0.1, -0.2, 0.3]
+        yield "SO3.RPY(Nx3)[1]", lambda: SO3.RPY(np.array([other, [r, pt, y]]), **u, **o)[1]
+        yield "SE3.RPY(Nx3)[1]", lambda: SE3.RPY(np.array([other, [r, pt, y]]), **u, **o)[1]
+        yield "SE3.RPY(list of triples)[1]", lambda: SE3.RPY([other, [r, pt, y]], **u, **o)[1]
     elif fn == "eul":
         a, b, c = ang(p["phi"], unit), ang(p["theta"], unit), ang(p["psi"], unit)
         yield "base.eul2r(scalars)", lambda: base.eul2r(a, b, c, **u)
@@ -115,6 +125,9 @@ def entry_points(case, unit="rad"):
         yield "SO3.Eul(packed)", lambda: SO3.Eul([a, b, c], **u)
         yield "SE3.Eul", lambda: SE3.Eul([a, b, c], **u)
         yield "UnitQuaternion.Eul", lambda: UnitQuaternion.Eul([a, b, c], **u)
+        other = [10.0, -20.0, 30.0] if unit == "deg" else [0.1, -0.2, 0.3]
+        yield "SO3.Eul(Nx3)[1]", lambda: SO3.Eul(np.array([other, [a, b, c]]), **u)[1]
+        yield "SE3.Eul(Nx3)[1]", lambda: SE3.Eul(np.array([other, [a, b, c]]), **u)[1]
     elif fn == "angvec":
         q = p["q"]
         v = np.array(q[1:], dtype=float)
@@ -141,6 +154,11 @@ def entry_points(case, unit="rad"):
             yield "base.q2r", lambda: base.q2r(uq)
             yield "UnitQuaternion(vec)", lambda: UnitQuaternion(uq)
             yield "UnitQuaternion(s,v)", lambda: UnitQuaternion(uq[0], uq[1:])
+            # multi-valued forms: EVERY element of the result must be a unit quaternion
+            # (all rows are multiples of the same quaternion, so that every element has the exact value of the case)
+            yield "UnitQuaternion(Nx4 array)", lambda: UnitQuaternion(np.array([uq, uq, uq]))
+            yield "UnitQuaternion(list of 4-vectors)", lambda: UnitQuaternion([uq, uq])
+            yield "UnitQuaternion(Nx4 array of non-unit rows)", lambda: UnitQuaternion(np.array([3.0 * uq, 0.25 * uq]))
             yield "UnitQuaternion.SO3", lambda: UnitQuaternion(uq).SO3()
             yield "UnitQuaternion.R", lambda: UnitQuaternion(uq).R
             yield "base.rodrigues", lambda: base.rodrigues(w)
@@ -183,7 +201,7 @@ TAGS = {"0": 0.0, "e": E, "-e": -E, "pi/2": math.pi / 2, "-pi/2": -math.pi / 2, 
         "-pi": -math.pi, "pi/2+e": math.pi / 2 + E, "pi/2-e": math.pi / 2 - E,
         "-pi/2+e": -math.pi / 2 + E, "-pi/2-e": -math.pi / 2 - E, "pi-e": math.pi - E,
         "-pi+e": -math.pi + E, "mid": 0.7, "turns": 17 * 2 * math.pi + 0.3, "big": 1e3 + 0.1}
-LENS = {"1e-3": 1e-3, "1": 1.0, "1e6": 1e6}
+LENS = {"1e-3": 1e-3, "1": 1.0, "1e6": 1e6, "1+4e-7": 1.0 + 4e-7, "1-7e-7": 1.0 - 7e-7, "1+3e-9": 1.0 + 3e-9}
 TMAG = {"0": 0.0, "1e-6": 1e-6, "1": 1.0, "1e6": 1e6}
 
 
@@ -223,6 +241,10 @@ def v_entry_points(case, unit="rad"):
         yield "SO3.RPY(packed)", lambda: SO3.RPY([r, pt, y], **u, **o)
         yield "SE3.RPY", lambda: SE3.RPY([r, pt, y], **u, **o)
         yield "UnitQuaternion.RPY", lambda: UnitQuaternion.RPY([r, pt, y], **u, **o)
+        other = [10.0, -20.0, 30.0] if unit == "deg" else [0.1, -0.2, 0.3]
+        yield "SO3.RPY(Nx3)[1]", lambda: SO3.RPY(np.array([other, [r, pt, y]]), **u, **o)[1]
+        yield "SE3.RPY(Nx3)[1]", lambda: SE3.RPY(np.array([other, [r, pt, y]]), **u, **o)[1]
+        yield "SE3.RPY(list of triples)[1]", lambda: SE3.RPY([other, [r, pt, y]], **u, **o)[1]
     elif fn == "v-eul":
         a, b, c = tag(p["phi"], unit), tag(p["theta"], unit), tag(p["psi"], unit)
         yield "base.eul2r(scalars)", lambda: base.eul2r(a, b, c, **u)
@@ -230,6 +252,9 @@ def v_entry_points(case, unit="rad"):
         yield "SO3.Eul(packed)", lambda: SO3.Eul([a, b, c], **u)
         yield "SE3.Eul", lambda: SE3.Eul([a, b, c], **u)
         yield "UnitQuaternion.Eul", lambda: UnitQuaternion.Eul([a, b, c], **u)
+        other = [10.0, -20.0, 30.0] if unit == "deg" else [0.1, -0.2, 0.3]
+        yield "SO3.Eul(Nx3)[1]", lambda: SO3.Eul(np.array([other, [a, b, c]]), **u)[1]
+        yield "SE3.Eul(Nx3)[1]", lambda: SE3.Eul(np.array([other, [a, b, c]]), **u)[1]
     elif fn == "v-angvec":
         th = tag(p["a"], unit)
         v = vdir(p["dir"], LENS[p["len"]])
